@@ -586,7 +586,17 @@ def replay(case, params, v):
                             x[..., 0, 0] if x.ndim == 3 else x[0, 0])
                     if acc == "int":
                         q = int(vals.get("q", 0))
-                        got, want = norm(feat[q]), exp[q % k]
+                        try:
+                            got, want = norm(feat[q]), exp[q % k]
+                        except IndexError as e:
+                            # a valid event index must never raise
+                            got, want = np.array([]), exp[q % k]
+                            fails.append(
+                                "basin map %r, %s feature, int access [%d]%s "
+                                "raised %r" % (
+                                    bm, "scalar" if p["scalar"] else "image",
+                                    q, " (cache warm)" if p["warm"] else "",
+                                    e))
                     elif acc == "whole":
                         got, want = norm(feat[:]), exp
                     elif acc == "array":
@@ -609,8 +619,8 @@ def replay(case, params, v):
                         m = np.array([bool(vals.get("m%d" % j, False))
                                       for j in range(k)])
                         got, want = norm(feat[m]), exp[m]
-                    if np.shape(got) != np.shape(want) or \
-                            not np.allclose(got, want):
+                    if not fails and (np.shape(got) != np.shape(want) or
+                                      not np.allclose(got, want)):
                         fails.append(
                             "basin map %r, %s feature, %s access%s: got %r,"
                             " origin[map] is %r" % (
